@@ -423,7 +423,7 @@ example : inKindLists exUser [{ contextKind := "user", values := ["k"] }] ∧
       findKey, Ctx.kind]
 
 def exEnv : Env :=
-  { opts := {}, store := { segments := [{ key := "s1" }] }, bs := none, ctx := exUser,
+  { opts := {}, store := Store.ofLists [] [{ key := "s1" }], bs := none, ctx := exUser,
     rx := fun _ _ => none }
 
 /-- Non-string values and missing segments are skipped; the existing member segment decides. -/
@@ -431,11 +431,11 @@ example (negate : Bool) :
     Spec.segMatchValues (fun _ _ => .ok true) exEnv negate []
       [.num 1, .str "missing", .str "s1", .str "other"] = .ok (!negate) := by
   refine segMatch_true _ exEnv [] negate [.num 1, .str "missing"] [.str "other"] "s1" { key := "s1" }
-    ?_ (by simp [exEnv, Store.findSegment]) rfl
+    ?_ (by simp [exEnv, Store.findSegment, Store.ofLists]) rfl
   intro k hk
   simp only [List.mem_cons, reduceCtorEq, J.str.injEq, List.not_mem_nil, or_false, false_or] at hk
   subst hk
-  exact .inl (by simp [exEnv, Store.findSegment])
+  exact .inl (by simp [exEnv, Store.findSegment, Store.ofLists])
 
 /-- Only missing segments: the clause is just `negate`. -/
 example (negate : Bool) :
@@ -445,7 +445,7 @@ example (negate : Bool) :
   intro k hk
   simp only [List.mem_cons, reduceCtorEq, J.str.injEq, List.not_mem_nil, or_false] at hk
   subst hk
-  exact .inl (by simp [exEnv, Store.findSegment])
+  exact .inl (by simp [exEnv, Store.findSegment, Store.ofLists])
 
 #print axioms lists_spec
 #print axioms regular_iff
